@@ -46,8 +46,11 @@ Fixpoint lrun (h : held) (p : list action) : option held :=
 (* a program (one call of an entry point) is disciplined when it runs from "no lock held" back to it *)
 Definition disciplined_prog (p : list action) : bool :=
   match lrun HNone p with Some HNone => true | _ => false end.
+(* "the limit in force at some instant during the call": an entry point takes one snapshot of the limit *)
+Definition is_limit_load (a : action) : bool := match a with ARead LLimit => true | _ => false end.
+Definition single_snapshot (p : list action) : bool := Nat.leb (length (filter is_limit_load p)) 1.
 Definition disciplined (progs : list (string * list action)) : bool :=
-  forallb (fun np => disciplined_prog (snd np)) progs.
+  forallb (fun np => disciplined_prog (snd np) && single_snapshot (snd np)) progs.
 
 (* ---- the mutex ---- *)
 Record gstate := mk_g { writer : option nat; readers : list nat }.
